@@ -462,4 +462,21 @@ theorem alg_add_eq (x y extra : List ℝ) (h : y.length = x.length) :
   · rfl
   · rfl
 
+
+/-! ## histories of `+` updates -/
+/-- `Exp(aₙ)·…·Exp(a₁)` for the updates `a₁, …, aₙ` in the order they are applied -/
+noncomputable def expProd (eps : ℝ) (as : List (Vec3 ℝ)) : Quat ℝ :=
+  as.foldl (fun P a => (so3Exp eps a).mul P) Quat.one
+
+theorem SO3_add_history_aux (eps : ℝ) (as : List (Vec3 ℝ)) : ∀ P X : Quat ℝ,
+    as.foldl (fun Y a => SO3Retr eps Y a) (P.mul X) = (as.foldl (fun P a => (so3Exp eps a).mul P) P).mul X := by
+  induction as with
+  | nil => intro P X; rfl
+  | cons a as ih =>
+    intro P X
+    simp only [List.foldl_cons, SO3Retr]
+    rw [← Quat.mul_assoc']
+    exact ih _ X
+
+
 end PP
